@@ -56,9 +56,13 @@ static enum topology_direction directions_square_torus[] = {DIRECTION_E, DIRECTI
  * @return A random neighbor according to the specified topology
  */
 static lp_id_t get_random_neighbor(lp_id_t from, struct topology *topology, size_t n_directions,
-    enum topology_direction directions[n_directions])
+    const enum topology_direction directions_src[n_directions])
 {
 	lp_id_t ret = INVALID_DIRECTION;
+	// permute a private copy: the source array is shared by all LPs and threads, shuffling it in place makes the
+	// outcome depend on previous calls (breaking rollbacks) and is a data race
+	enum topology_direction directions[n_directions];
+	memcpy(directions, directions_src, sizeof(directions));
 
 	assert(topology->geometry != TOPOLOGY_RING);
 	assert(topology->geometry != TOPOLOGY_BIDRING);
